@@ -48,9 +48,10 @@ TITLES = {
     "P": ["~P", "~Parameter", "~PARAMETER INFORMATION", "~p", "~params", "~parameter information", "~Parameter {run 1}",
           "~P %s %(x)d {0}"],
     "O": ["~O", "~Other", "~OTHER INFORMATION", "~o", "~other", "~other information", "~Other_Information"],
-    "A": ["~A", "~ASCII", "~ASCII LOG DATA", "~a", "~ascii", "~a  DEPT  GR"],
-    "X1": ["~Tool", "~TOOL SETUP", "~tool", "~tool setup section", "~Tool {setup} %d"],
-    "X2": ["~Remarks", "~REMARKS AREA", "~remarks", "~remarks area"],
+    "A": ["~A", "~ASCII", "~ASCII LOG DATA", "~a", "~ascii", "~a  DEPT  GR", "~A  DEPT" + "        CURVE%02d" * 12 % tuple(range(12))],
+    # (title lines longer than 80 and 120 characters included)
+    "X1": ["~Tool", "~TOOL SETUP", "~tool", "~tool setup section", "~Tool {setup} %d", "~Tool " + "setup section of the logging tool " * 3 + "one"],
+    "X2": ["~Remarks", "~REMARKS AREA", "~remarks", "~remarks area", "~Remarks " + "-" * 130 + " end"],
 }
 CUSTOM_KEY = {"tool": "X1", "remarks": "X2"}
 # how the curve ids are spelled: presentation, except that the names must stay distinguishable
@@ -71,8 +72,7 @@ FIN_SPELL = [lambda x: repr(x), lambda x: "%.2f" % x, lambda x: "%.5f" % x, lamb
 
 
 def cell_value(cid):
-    r, c = divmod(cid, 10)
-    return r * 100.0 + c + 0.25
+    return cid + 0.25           # cid = row * 100 + column
 
 
 NULL_STYLES = {
@@ -125,6 +125,9 @@ def concretise(text, rng, style=None):
             dlm = ln["v"]
     nl = style.get("nl") or rng.choice(["\n", "\r\n"])
     final_nl = style.get("final_nl", rng.random() < 0.7)
+    # text cells: identifiers, or date-like tokens digit-hyphen-digit (one style per file: lasio documents that it keeps such
+    # tokens whole when every sampled data line contains a hyphen)
+    textstyle = pick(["t", "t", "date"], "textstyle")
     out = []
     for ln in text:
         k = ln["k"]
@@ -159,7 +162,7 @@ def concretise(text, rng, style=None):
         elif k == "blank":
             out.append(rng.choice(["", "   ", "\t"]))
         elif k == "comment":
-            out.append(rng.choice(["# a comment", "#", "  # indented comment 1 2 3", "#1 2 3"]))
+            out.append(rng.choice(["# a comment", "#", "  # indented comment 1 2 3", "#1 2 3", "# dashed - comment 1-2", "#--- 3-4 ---"]))
         elif k == "junk":
             out.append(JUNK[ln["id"]])
         elif k == "data":
@@ -175,7 +178,10 @@ def concretise(text, rng, style=None):
                     toks.append(pick(near_spell, cell["id"]))
                 else:
                     # text values: plain, or quoted with an embedded blank (one value for the quote-aware tokeniser)
-                    q = pick(["t%d", "t%d", "\"t %d\"", "'t %d'"], ("text", cell["id"])) if dlm == "SPACE" else "t%d"
+                    if textstyle == "date":
+                        q = "%d-05-22"
+                    else:
+                        q = pick(["t%d", "t%d", "\"t %d\"", "'t %d'"], ("text", cell["id"])) if dlm == "SPACE" else "t%d"
                     toks.append(q % cell["id"])
             if dlm == "COMMA":
                 sep = rng.choice([",", ", ", " , "])
@@ -206,27 +212,27 @@ def project_cell(x):
         if x in _NULLV[1]:
             return -3
         y = abs(x) - 0.25          # (the "neg" style writes every value with a minus sign: a hyphen on every line)
-        if y == int(y) and 100 <= y < 100000:
-            r, c = divmod(int(y), 100)
-            if 1 <= c <= 9:
-                return r * 10 + c
+        if y == int(y) and 100 <= y < 1000000 and 1 <= int(y) % 100 <= 99:
+            return int(y)
         return -99
     if isinstance(x, (str, np.str_)):
-        m = re.match(r"^t ?(\d+)$", str(x))
+        m = re.match(r"^t ?(\d+)$", str(x)) or re.match(r"^(\d+)-05-22$", str(x))
         if m:
-            return 1000 + int(m.group(1))
+            return 1000000 + int(m.group(1))
         return -98          # any other string, numeric-looking ones included ('nan', '101.25'): not a number, not a text cell
     return -97
 
 
-def project(las, text, names="std", null="std"):
+def project(las, text, names="std", null="std", concrete=None):
     global _NAMES_BACK
     _NAMES_BACK = {v.upper(): k for k, v in NAME_STYLES[names].items()}
     _NULLV[0] = float(NULL_STYLES[null][0])
     _NULLV[1] = set(float(t) for t in NULL_STYLES[null][2])
     present = set(ln["sec"] for ln in text if ln["k"] == "title")
     names = {"V": "Version", "W": "Well", "C": "Curves", "P": "Parameter", "O": "Other"}
-    res = {"header": {}, "other": [], "custom": [], "curves": [], "extra": [], "defaults_ok": True}
+    res = {"header": {}, "other": [], "custom": [], "curves": [], "extra": [], "defaults_ok": True, "own_title": True}
+    norm_title = lambda t: t.strip().lstrip("~").strip()
+    titles = None if concrete is None else set(norm_title(t) for t in re.split(r"\r\n|\r|\n", concrete) if t.strip().startswith("~"))
     defaults = lasio.LASFile()
     for key, sec in las.sections.items():
         std = [s for s, n in names.items() if n == key]
@@ -261,9 +267,37 @@ def project(las, text, names="std", null="std"):
             else:
                 res["header"][ck] = proj_items(sec)
                 res["custom"].append(ck)
-    for c in list.__iter__(las.curves):
+                if titles is not None and norm_title(key) not in titles:
+                    res["own_title"] = False          # kept, but not under its own (whole) title
+    items = list(list.__iter__(las.curves))
+    for c in items:
         res["curves"].append({"m": _NAMES_BACK.get(c.original_mnemonic.upper(), c.original_mnemonic),
                               "data": [project_cell(x) for x in c.data]})
+    # which curve each key of the LASFile addresses (position by identity; 0 = none / not unique), and whether column j of the
+    # stacked 2-D view las.data is curve j (float files only: with text columns the stacked view is a string array)
+    res["keypos"], res["stack"] = [], []
+    keys = las.keys()
+    for j, c in enumerate(items):
+        pos = 0
+        if j < len(keys):
+            try:
+                got = las.curves[keys[j]]
+                pos = ([i + 1 for i, x in enumerate(items) if x is got] or [0])[0]
+            except Exception:
+                pos = 0
+        res["keypos"].append(pos)
+    allfloat = all(np.asarray(c.data).dtype.kind == "f" for c in items)
+    try:
+        arr = las.data if allfloat and items else None
+    except Exception:
+        arr = "EXC"
+    for j, c in enumerate(items):
+        if arr is None:
+            res["stack"].append(j + 1)
+        elif isinstance(arr, str) or arr.ndim != 2 or arr.shape[1] != len(items):
+            res["stack"].append(0)
+        else:
+            res["stack"].append(j + 1 if [project_cell(x) for x in arr[:, j]] == res["curves"][j]["data"] else 0)
     return res
 
 
@@ -325,9 +359,9 @@ def read_event(prop, inst, concrete, engines=("numpy",), extra_kw=None, names="s
             return ev
         results.append(las)
         ev["fastpath"].append(list(getattr(las, "_verif_engines", [])))
-    ev["res"] = project(results[0], text, names, null)
+    ev["res"] = project(results[0], text, names, null, concrete)
     if len(results) == 2:
-        ev["res2"] = project(results[1], text, names, null)
+        ev["res2"] = project(results[1], text, names, null, concrete)
         ev["bits_equal"] = raw_bits(results[0]) == raw_bits(results[1])
     else:
         ev["res2"] = ev["res"]
